@@ -543,6 +543,7 @@ def run(ctx, chk):
                         d["deserialize"].sp())
     llvar(chk, bodies, crates)
     fixed(chk, bodies, crates)
+    custom_styles(chk, bodies, crates)
     writer_truncation(chk, bodies, crates)
 
 
@@ -616,6 +617,28 @@ def llvar(chk, bodies, crates):
                 "0xF0 | d", ser.sp())
     chk.require(0x0F in cs_d, "C16-d/mask", "LlvImpl::deserialize", "digits are not read as byte & 0x0F (constants %s)" % sorted(cs_d),
                 "b & 0x0F", de.sp())
+    # the writer fills *every* position: the digit loop is left only when its iterator is exhausted, and every
+    # trip through it stores `0xF0 | digit` (a loop that stops at the last significant digit leaves 0x00 bytes)
+    loops = ser.natural_loops()
+    nexts = [(bb, t) for bb, t in ser.calls() if callee(t) == "core::iter::traits::iterator::Iterator::next"]
+    lp = [(h, blks) for h, blks in loops.items() if any(bb in blks for bb, _ in nexts)]
+    if lp and len(nexts) == 1 and nexts[0][1]["to"] is not None:
+        h, blks = lp[0]
+        sw = nexts[0][1]["to"]
+        exits = sorted({(x, y) for x in blks for y in ser.succ[x] if y not in blks and ser.blocks[y]["term"]["t"] != "unreachable"})
+        early = [e_ for e_ in exits if e_[0] != sw]
+        chk.require(not early, "C16-d/every-position", "LlvImpl::serialize",
+                    "the digit loop can be left before all N positions are written (exit from bb%s)" % [e_[0] for e_ in early],
+                    "only exit: iterator exhausted", (ser.blocks[early[0][0]]["term"].get("sp") if early else None) or ser.sp())
+        stores = set()
+        for i in blks:
+            for st in ser.blocks[i]["stmts"]:
+                if st["s"] == "assign" and any(x[0] == "bin" and x[1] in ("BitOr", "|") and
+                                                any(y == ("const", 0xF0) for y in x[2:4]) for x in walk(ps.vx.rvalue(st["rv"], i))):
+                    stores.add(i)
+        import contracts as _c
+        chk.require(bool(stores) and _c.cycles_broken_by(ser, h, blks, stores), "C16-d/every-position", "LlvImpl::serialize (store)",
+                    "a trip through the digit loop can skip the `0xF0 | digit` store", "every iteration stores 0xF0|d", ser.sp())
     # writer allocates N bytes; reader's data starts at N
     fe = [(bb, t) for bb, t in ser.calls() if callee(t) == "alloc::vec::from_elem"]
     ok = len(fe) == 1 and ps.vx.operand(fe[0][1]["args"][1], fe[0][0]) == ("constparam", "N")
@@ -671,6 +694,46 @@ def fixed(chk, bodies, crates):
         fill = ps.vx.operand(fe[0][1]["args"][0], fe[0][0])
         ok = n[0] == "bin" and n[1] == "Sub" and n[2] == ("constparam", "N") and n[3][0] == "path" and fill == ("const", 0)
     chk.require(ok, "C16-e/fixed-writer", "Fixed::serialize", "writer does not pad with N - len zero bytes", "vec![0; N - len]", ser.sp())
+
+
+def custom_styles(chk, bodies, crates):
+    """A length style outside the builder's table (today: feig `Temperature`, "whatever is left, at most 4"):
+    its reader hands the whole input on as data (no prefix bytes), so its writer must emit no prefix bytes -
+    anything it writes ends up in front of the payload and is read back as payload."""
+    import contracts
+    for style, d in sorted(bodies.items()):
+        if style in SPEC or style.startswith(("zvt_builder::length::LlvImpl", "zvt_builder::length::Fixed")):
+            continue
+        short = style.rsplit("::", 1)[-1]
+        ser, de = d.get("serialize"), d.get("deserialize")
+        if not chk.require(ser is not None and de is not None, "C16-f/custom-style", short, "incomplete Length impl", "", nontrivial=False):
+            continue
+        pd, ps = make_prover(de, crates), make_prover(ser, crates)
+        rems = contracts.ok_remainders(pd)
+        whole = bool(rems) and all(strip_ref(r) == ("path", pd.vx.root_name(1), ()) for _, r in rems)
+        if not chk.require(whole, "C16-f/custom-style", short + "::deserialize",
+                           "a length style that is not in the specification table consumes prefix bytes: %s (cannot be judged)"
+                           % [show(r)[:60] for _, r in rems], "data = the whole input", de.sp()):
+            continue
+        # writer: every returned vector is empty
+        rets = []
+        for i in sorted(ser.reachable(0)):
+            for st in ser.blocks[i]["stmts"]:
+                if st["s"] == "assign" and st["p"]["l"] == 0 and not st["p"]["p"]:
+                    rets.append(ps.vx.rvalue(st["rv"], i))
+            t = ser.blocks[i]["term"]
+            if t["t"] == "call" and t["dest"]["l"] == 0 and not t["dest"]["p"]:
+                rets.append(("call", callee(t), tuple(ps.vx.operand(a, i) for a in t["args"])))
+        def empty(e):
+            e = strip_ref(e)
+            if e[0] == "call" and e[1] in ("alloc::vec::Vec::<T>::new", "core::default::Default::default"):
+                return True
+            if e[0] == "call" and e[1] in ("alloc::vec::from_elem", "alloc::vec::Vec::<T>::with_capacity"):
+                return e[1].endswith("with_capacity") or e[2][1] == ("const", 0)
+            return False
+        chk.require(bool(rets) and all(empty(e) for e in rets), "C16-f/custom-style", short + "::serialize",
+                    "the reader takes no prefix bytes but the writer emits %s" % [show(e)[:80] for e in rets],
+                    "Vec::new()", ser.sp())
 
 
 # the writer must not silently cut the length it is asked to encode (a length that a style cannot
